@@ -41,6 +41,7 @@ type Profile struct {
 	GenericAliasBoost int    // additional % of instantiated-generic interfaces declared as generic alias
 	TwinPct           int    // additional % of worlds with a build-constrained twin interface
 	HugePct           int    // % of interfaces with several hundred methods
+	BlankTParamBoost  int    // additional % of type parameters that are blank
 	ForcedGroupBoost  int    // additional % of conflict worlds with a forced group of sanitise-equal same-named packages
 	DiffAliasPct      int    // % of worlds with an extra source file importing used packages under other aliases
 	MockLikeParamPct  int    // chance (per argument) of a mock type named like a parameter of the interface
@@ -1627,7 +1628,7 @@ func (g *G) genTParams(skipEnsure bool) ([]TParamDecl, bool) {
 		switch tp.Kind {
 		case "any", "comparable", "union-inline", "union-inline-composite", "union-named", "element-then-union", "method-iface":
 			prevBlank := len(tps) > 0 && tps[len(tps)-1].Name == "_"
-			if n >= 2 && (g.Chance(8) || (prevBlank && g.Chance(60))) {
+			if n >= 2 && (g.Chance(8+g.P.BlankTParamBoost) || (prevBlank && g.Chance(60))) {
 				tp.Name = "_" // blank type parameter: never referenced, the mock must still name it
 				g.label("tparam:blank")
 			}
